@@ -331,6 +331,12 @@ func c01Scenarios(tier string) []*h.Scenario {
 		// a still empty session: the completion switches the algorithm without a rescan
 		add("completion-with-algorithm-switch-on-an-empty-session-vs-chunk", func(w *h.World) { open(w, "s1", "") },
 			[][]h.Step{{put("s1", "x", "sha512", "x")}, {patch("s1", "y")}})
+		// two completions of one still empty session that both switch the algorithm: each has decided to switch before the
+		// other wrote (a stale decision acted upon after the first bytes arrived)
+		add("two-completions-with-algorithm-switch-on-the-same-empty-session", func(w *h.World) { open(w, "s1", "") },
+			[][]h.Step{{put("s1", "x", "sha512", "x")}, {put("s1", "y", "sha512", "y")}})
+		add("two-completions-with-different-algorithm-switches-on-the-same-empty-session", func(w *h.World) { open(w, "s1", "") },
+			[][]h.Step{{put("s1", "x", "sha512", "x")}, {put("s1", "y", "sha384", "y")}})
 		add("completion-vs-cancel-of-the-same-session", func(w *h.World) { open(w, "s1", "x") },
 			[][]h.Step{{put("s1", "y", "sha256", "xy")}, {h.Step{Name: "DELETE s1", Do: func(w *h.World) string {
 				s := w.M.(map[string]sess)["s1"]
@@ -380,7 +386,7 @@ func init() {
 	h.Checks["C01"] = func(tier string) int {
 		c := h.SeqChecks["C01"]
 		rep := h.NewReport("C01", tier, c.Level)
-		rep.Rule = c.Rule + "; plus 6 scenarios per store explored over all interleavings up to the preemption bound (a completion with and without an algorithm switch racing with a chunk on the same session, the switch on a still empty session, a completion racing with the cancellation of its session, two sessions completing to the same digest, two completions racing with a reader): the same hash invariant at quiescence and on every racing read"
+		rep.Rule = c.Rule + "; plus 8 scenarios per store explored over all interleavings up to the preemption bound (a completion with and without an algorithm switch racing with a chunk on the same session, the switch on a still empty session, two completions that both switch the algorithm of one empty session, a completion racing with the cancellation of its session, two sessions completing to the same digest, two completions racing with a reader): the same hash invariant at quiescence and on every racing read"
 		rep.Assume = c.Assume
 		h.RunSeqInto(rep, "C01", tier, time.Time{})
 		h.RunSchedInto(rep, "C01sched", tier)
